@@ -23,7 +23,15 @@ C19_Cfgs == { BaseCfg, [BaseCfg EXCEPT !.storeKind = "memory", !.disc = "forced"
 C19_Stores == { <<Cred("c1", "r1", "u1", Ctr(0, 5), "none"), Cred("c2", "r1", "u2", NoCtr, "none")>> }
 \* two concurrent ceremonies: assert/assert on one credential, assert/register, register/register
 C19_Pairs == { <<AssertOn("c1"), AssertOn("c1")>>, <<AssertOn("c1"), AssertOn("c2")>>, <<AssertOn("c1"), Register("u3", TRUE)>>,
-               <<Register("u3", TRUE), Register("u4", FALSE)>>, <<AssertOn("c2"), Register("u3", FALSE)>> }
+               <<Register("u3", TRUE), Register("u4", FALSE)>>, <<AssertOn("c2"), Register("u3", FALSE)>>,
+               \* lookups without an allow list (the wrapper's id-less path), against a writer and against each other
+               <<AssertAny, Register("u3", TRUE)>>, <<AssertAny, AssertOn("c1")>>, <<AssertAny, AssertAny>>,
+               \* two registrations for the same account, and one for the account an existing credential belongs to
+               <<Register("u3", TRUE), Register("u3", TRUE)>>, <<Register("u1", TRUE), AssertOn("c2")>> }
+\* the map-like MemoryStore has no listing order: an id-less lookup is predictable only on the reference store
+IdLess(c) == c.op = "ga" /\ ~c.req.allowGiven
+C19_PlanOk(p) == p.cfg.storeKind = "memory" => \A i \in 1..Len(p.cers) : ~IdLess(p.cers[i])
 C19_Triples == { <<AssertOn("c1"), AssertOn("c1"), AssertOn("c1")>>, <<AssertOn("c1"), AssertOn("c1"), Register("u3", TRUE)>>,
-                 <<AssertOn("c1"), Register("u3", TRUE), Register("u4", TRUE)>> }
+                 <<AssertOn("c1"), Register("u3", TRUE), Register("u4", TRUE)>>,
+                 <<AssertAny, Register("u3", TRUE), AssertOn("c2")>>, <<Register("u3", TRUE), Register("u3", TRUE), AssertAny>> }
 =============================================================================
